@@ -1,5 +1,6 @@
 """Shared by C05 / C16 / C17 / C18: which bodies touch guest memory, through which accessor, and where
 the dirty marks are. Everything is discovered by effect (callee), nothing by function name."""
+import re
 from .mir import deep_strip, tstr, canon, subterms, is_call
 from . import effects
 
@@ -13,6 +14,26 @@ def _root_adt(prog, b):
 
 
 def accesses(prog, eff, role):
+    """Access sites of the program; decided on the inlining normal form and, when that leaves a pointer unclassified (e.g. a
+    helper that threads raw pointers through a tuple or struct was inlined into its caller), on the program as written — where the
+    same helper is an ordinary raw-pointer helper. Either view classifies every access or the problems of the first are reported."""
+    r = _accesses(prog, eff, role)
+    if r[3] and not getattr(prog, "is_pristine", True):
+        p0 = prog.pristine()
+        e0 = getattr(p0, "_tracking_eff", None)
+        if e0 is None:
+            e0 = effects.Effects(p0)
+            p0._tracking_eff = e0
+        try:
+            r0 = _accesses(p0, e0, role)
+        except Exception:
+            r0 = None
+        if r0 is not None and not r0[3]:
+            return r0
+    return r
+
+
+def _accesses(prog, eff, role):
     """role = 'dst' (writes) or 'src' (reads).
     Returns (sites, raw, problems):
       sites: list of dict(body, pos, ln, kind, origin, count, via, call) — accesses whose pointer has guest provenance
@@ -47,7 +68,13 @@ def accesses(prog, eff, role):
         elif o[0] == 'host':
             host.append(rec)
         else:
-            problems.append(rec)
+            att = _by_type(prog, b, _arg_ty(prog, w["call"], ptr))
+            if att is not None:
+                key = (att[0].id, att[1])
+                if key not in raw:
+                    raw[key] = {"count_param": None, "kind": w["kind"], "via": [b.key]}
+            else:
+                problems.append(rec)
     # propagate raw helpers through their call sites
     changed = True
     rounds = 0
@@ -89,8 +116,100 @@ def accesses(prog, eff, role):
                     elif o[0] == 'host':
                         host.append(rec)
                     else:
-                        problems.append(rec)
+                        tys = c.t.get("arg_tys") or []
+                        att = _by_type(prog, b, prog.types[tys[idx - 1]]["s"] if idx - 1 < len(tys) else None)
+                        if att is not None:
+                            key = (att[0].id, att[1])
+                            if key not in raw:
+                                raw[key] = {"count_param": None, "kind": info["kind"], "via": [fid]}
+                                changed = True
+                        else:
+                            problems.append(rec)
     return sites, raw, host, problems
+
+
+CRATE_MEMORY_TYPES = re.compile(r"volatile_memory::(Volatile|PtrGuard)|mmap::|guest_memory::|bitmap::|atomic::|Guest(Memory|Region|Address)")
+
+
+def _arg_ty(prog, call, ptr_term):
+    """type string of the pointer operand of a primitive access"""
+    tys = call.t.get("arg_tys") or []
+    for i, a in enumerate(call.args()):
+        if deep_strip(a) == deep_strip(ptr_term) and i < len(tys):
+            return prog.types[tys[i]]["s"]
+    return None
+
+
+def _pure_raw_helper(prog, b):
+    """a crate-internal function that handles nothing but raw pointers and integers: no accessor, guard, region or bitmap value
+    appears among its locals, so every pointer it uses comes from its own inputs (by pointer arithmetic), and it never turns a
+    `*const` into a `*mut`"""
+    memo = prog.__dict__.setdefault("_pure_raw", {})
+    if b.id in memo:
+        return memo[b.id]
+    memo[b.id] = False
+    f = prog.fns.get(b.id)
+    if b.kind not in ("Fn", "AssocFn") or f is None or f.get("vis") == "pub":
+        return False
+    for i in range(len(b.locals)):
+        if CRATE_MEMORY_TYPES.search(b.local_ty(i).s):
+            return False
+    for _pos, s_ in b.stmts():
+        if s_["k"] == "assign" and s_["rv"]["k"] == "cast" and s_["rv"].get("cast") in ("PtrToPtr", "Transmute", "IntToPtr"):
+            to = prog.types[s_["rv"]["ty"]]["s"]
+            op = s_["rv"]["op"]
+            frm = b.local_ty(op["pl"]["l"]).s if "pl" in op and not op["pl"].get("p") else "?"
+            if to.startswith("*mut") and not frm.startswith("*mut"):
+                return False
+    memo[b.id] = True
+    return True
+
+
+def _ptr_inputs(prog, b):
+    """(param index, field path, 'mut' | 'const') for every raw-pointer input of b: pointer parameters and the pointer fields of
+    tuple / struct parameters (also behind one reference)"""
+    out = []
+    for i in range(1, b.arg_count + 1):
+        t = b.local_ty(i)
+        if t.k == 'ptr':
+            out.append((i, (), 'mut' if t.s.startswith("*mut") else 'const'))
+            continue
+        if t.k == 'ref' and t.inner() is not None:
+            t = t.inner()
+        if t.k == 'tuple':
+            for fi, a in enumerate(t.j.get("args", [])):
+                ts = prog.types[a]["s"]
+                if prog.types[a]["k"] == 'ptr':
+                    out.append((i, (fi,), 'mut' if ts.startswith("*mut") else 'const'))
+        elif t.k == 'adt' and t.j.get("def") in prog.adts:
+            for fi, fld in enumerate(prog.adts[t.j["def"]]["variants"][0]["fields"]):
+                if prog.types[fld["ty"]]["k"] == 'ptr':
+                    out.append((i, (fi,), 'mut' if prog.types[fld["ty"]]["s"].startswith("*mut") else 'const'))
+    return out
+
+
+def _by_type(prog, b, ptr_ty):
+    """an access through a pointer whose data flow the term engine cannot follow (loop-carried, threaded through a tuple or a state
+    struct) inside a pure raw helper: by TYPE it can only come from the helper's unique input of that pointer mutability; follow
+    that input up the (pure raw helper) callers until it is a plain pointer parameter. Returns (body, param index) or None."""
+    if not ptr_ty or not ptr_ty.startswith("*"):
+        return None
+    mut = 'mut' if ptr_ty.startswith("*mut") else 'const'
+    cur = prog.by_id.get(b.root, b) if b.kind == "Closure" else b
+    for _ in range(5):
+        if not _pure_raw_helper(prog, cur):
+            return None
+        ins = [x for x in _ptr_inputs(prog, cur) if x[2] == mut]
+        if len(ins) != 1:
+            return None
+        if ins[0][1] == ():
+            return cur, ins[0][0]
+        callers = {cb.id: cb for cb in prog.bodies for c in cb.calls() if c.target == cur.id and cb.id != cur.id}
+        if len(callers) != 1:
+            return None
+        cur = list(callers.values())[0]
+        cur = prog.by_id.get(cur.root, cur) if cur.kind == "Closure" else cur
+    return None
 
 
 def accessor_key(o):
